@@ -130,6 +130,9 @@ def run_check(pid, tier):
     lem = prop.lemmas() if hasattr(prop, "lemmas") else []
     for name, hyps, goal in lem:
         obligs.append(Oblig("%s/lemma:%s" % (pid, name), list(hyps), goal, "props/%s.py" % pid, "lemma"))
+        # vacuity guard for the lemma itself: its hypotheses must not be refutable
+        import z3 as _z3
+        canaries.append(Oblig("lemma:%s/canary" % name, list(hyps), _z3.BoolVal(False), "props/%s.py" % pid, "canary"))
     # effect / frame obligations (flow-insensitive, decided without SMT)
     static_results = prop.static_obligations(tier) if hasattr(prop, "static_obligations") else []
     t0 = time.time()
